@@ -88,6 +88,7 @@ def generate(seed, run, tier):
     p_lookup = sw.choice([0.15, 0.35, 0.6])
     p_pit = sw.choice([0.0, 0.0, 0.08, 0.2])
     adversarial = sw.chance(0.5)
+    p_reuse = sw.choice([0.0, 0.3, 0.8])      # lookups that re-use ONE description dict per layer type, edited in place
     # what each registrant task will register, in its program order
     regs = []
     for t in types:
@@ -116,7 +117,7 @@ def generate(seed, run, tier):
             else:
                 t = rs.choice(types)
                 ops.append({'op': 'lookup', 'type': t, 'dw': rs.chance(0.5), 'k3': rs.chance(0.5),
-                            's2': rs.chance(0.4)})
+                            's2': rs.chance(0.4), 'reuse': rs.chance(p_reuse)})
     while live:
         if adversarial and not rs.chance(0.3):
             i = live[0] if len(set(pcs)) == 1 else min(live, key=lambda j: pcs[j])
@@ -228,6 +229,7 @@ def execute(case):
     fns = {}          # fid -> function
     ident = {}        # id(function) -> label
     registered = {t: [] for t in TYPES}      # reference: type -> list of (pat, fid) in order
+    shared_specs = {}
     ident[id(cs.default)] = 'DEFAULT'
 
     def mk_fn(fid):
@@ -276,6 +278,14 @@ def execute(case):
         elif kind == 'lookup':
             tname = op['type']
             spec = layer_spec(tname, op['dw'], op['k3'], op['s2'])
+            if op.get('reuse'):
+                # the same dict object is edited in place between lookups (vars(layer) of a live layer is such an
+                # object): the answer must depend on its content now, not on what it held at an earlier lookup
+                shared = shared_specs.setdefault(tname, {})
+                shared.clear()
+                shared.update(spec)
+                spec = shared
+                bump('lookups_reusing_one_description_object')
             kindx, accept, ke_ok = expected(tname, op['dw'], op['k3'], op['s2'])
             n_reg = len(registered[tname])
             pending = any(o['op'] == 'reg' for o in case['ops'][i + 1:])
